@@ -96,6 +96,10 @@ structure Clean (s : Seg) (l : List Nat) : Prop where
   freeClean : ∀ f ∈ s.free, (s.get f).prev = none ∧ (s.get f).deleted = false ∧ (s.get f).copied = false
   count : s.numGlyphs = (l.length : Int)
 
+/-- every slot in use that is neither marked deleted nor a temporary copy is a slot of the stream -/
+def Alloc (s : Seg) (l : List Nat) : Prop :=
+  ∀ j, j < s.slots.size → j ∉ s.free → (s.get j).copied = false → (s.get j).deleted = false → j ∈ l
+
 /-- where the `is` register may point: nowhere, into the stream, or at the deleted former first slot -/
 def IsOK (s : Seg) (l : List Nat) (is : Option Nat) : Prop :=
   is = none ∨ (∃ i, is = some i ∧ i ∈ l) ∨
@@ -132,6 +136,11 @@ theorem Clean.same {s s' : Seg} {l : List Nat} (hs : StreamSame s s') (h : Clean
    fun f hf => by rw [(hs.slot f).2.1, (hs.slot f).2.2.1, (hs.slot f).2.2.2]; exact h.freeClean f (by rw [← hs.free]; exact hf),
    by rw [hs.numGlyphs]; exact h.count⟩
 
+theorem Alloc.same {s s' : Seg} {l : List Nat} (hs : StreamSame s s') (h : Alloc s l) : Alloc s' l := by
+  intro j h1 h2 h3 h4
+  rw [hs.size] at h1; rw [hs.free] at h2; rw [(hs.slot j).2.2.2] at h3; rw [(hs.slot j).2.2.1] at h4
+  exact h j h1 h2 h3 h4
+
 theorem IsOK.same {s s' : Seg} {l : List Nat} {is : Option Nat} (hs : StreamSame s s') (h : IsOK s l is) : IsOK s' l is := by
   rcases h with h | h | ⟨d, h1, h2, h3, h4, h5, h6⟩
   · exact .inl h
@@ -154,6 +163,47 @@ theorem get_grow' (s : Seg) (k j : Nat) (fr : List Nat) :
     rw [Array.getElem?_eq_none (by omega : s.slots.size ≤ j)]
     simp [Array.getElem?_replicate]
     split <;> rfl
+
+/-- after `newSlot` the only slot in use outside the stream is the new one -/
+theorem newSlot_alloc {s s' : Seg} {l : List Nat} {g k : Nat} (ha : Alloc s l) (e : s.newSlot g = some (k, s')) :
+    ∀ j, j < s'.slots.size → j ∉ s'.free → (s'.get j).copied = false → (s'.get j).deleted = false → j ∈ l ∨ j = k := by
+  unfold Seg.newSlot at e
+  split at e
+  · rename_i i rest hfree
+    simp only [Option.some.injEq, Prod.mk.injEq] at e
+    obtain ⟨e1, e2⟩ := e
+    subst e1
+    intro j h1 h2 h3 h4
+    by_cases hji : j = i
+    · exact .inr hji
+    · left
+      rw [← e2] at h1 h2 h3 h4
+      have g : ({ (s.upd i fun sl => sl.setNext none) with free := rest } : Seg).get j = s.get j := get_upd_ne s i j _ hji
+      rw [g] at h3 h4
+      refine ha j (by simpa using h1) ?_ h3 h4
+      rw [hfree]
+      intro hh
+      rcases List.mem_cons.mp hh with h | h
+      · exact hji h
+      · exact h2 h
+  · rename_i hfree
+    split at e
+    · cases e
+    · simp only [Option.some.injEq, Prod.mk.injEq] at e
+      obtain ⟨e1, e2⟩ := e
+      intro j h1 h2 h3 h4
+      rw [← e2] at h1 h2 h3 h4
+      rw [get_grow'] at h3 h4
+      by_cases hjs : j < s.slots.size
+      · exact .inl (ha j hjs (by rw [hfree]; simp) h3 h4)
+      · right
+        rw [← e1]
+        simp only [Array.size_append, Array.size_replicate] at h1
+        apply Classical.byContradiction
+        intro hne
+        apply h2
+        show j ∈ (List.range (max s.bufSize 1 - 1)).map (· + s.slots.size + 1)
+        exact List.mem_map.mpr ⟨j - s.slots.size - 1, List.mem_range.mpr (by omega), by omega⟩
 
 /-- what `newSlot` guarantees about the slot it hands out -/
 theorem newSlot_spec {s s' : Seg} {l : List Nat} {g k : Nat} {is : Option Nat}
